@@ -104,6 +104,22 @@ def _rel_model(rel, req=False, cascade=None, uniq=True, inherit=False, ckey=Fals
 
 make = _rel_model
 
+def _casc3(opt):
+    """three entities: A owns bs (deleted by cascade, or unlinked when opt) declared BEFORE cs, whose
+    reverse is required without cascade - so deleting an A with both kinds of dependents fails midway"""
+    name = 'casc3' + ('-opt' if opt else '')
+    def define(db):
+        from pony.orm import PrimaryKey, Required, Optional, Set
+        type('A', (db.Entity,), dict(id=PrimaryKey(int), n=Optional(int), u=Optional(str, unique=True),
+                                     bs=Set('B') if opt else Set('B', cascade_delete=True), cs=Set('C', cascade_delete=False)))
+        type('B', (db.Entity,), dict(id=PrimaryKey(int), m=Optional(int), a=Optional('A') if opt else Required('A')))
+        type('C', (db.Entity,), dict(id=PrimaryKey(int), a=Required('A')))
+    def populate(E):
+        a1 = E['A'](id=1, n=0, u='u1'); a2 = E['A'](id=2, n=1)
+        E['B'](id=1, m=0, a=a1); E['B'](id=2, m=1, a=a1)
+        E['C'](id=1, a=a1); E['C'](id=2, a=a2)
+    return Model(name, define, populate, tags=['casc3'], opts=dict(rel='casc3', req=not opt, cascade=None, uniq=True, inherit=False, ckey=False, pk='int', lazy=False, np='default', lazy_rel=False))
+
 def catalogue(tier='quick'):
     """Model list. quick: one representative per relationship kind and option that changes code
     paths; thorough: the full option product."""
@@ -122,6 +138,7 @@ def catalogue(tier='quick'):
     M.append(_rel_model('o2m', req=True, cascade=False))
     M.append(_rel_model('o2m', req=False, cascade=True))
     M.append(_rel_model('o2m', req=False, pk='auto'))
+    M.append(_casc3(False)); M.append(_casc3(True))
     if tier != 'quick':
         M.append(_rel_model('o2o', req=False, cascade=True))
         M.append(_rel_model('o2o', req=True, cascade=False))
